@@ -249,13 +249,33 @@ impl util::BitVec
 			*accum_index = read_index;
 		};
 
+		// A record holds whole address units starting at a unit address:
+		// widen each block to unit boundaries (the added bits read as
+		// zero), and join blocks that touch or overlap afterwards
+		let mut ranges = Vec::<(usize, usize)>::new();
 		for block in self.get_blocks()
 		{
-			let mut read_index = block.offset;
-			let mut accum_index = block.offset;
+			let block_end = block.offset + block.size;
+			let start = block.offset - block.offset % address_unit;
+			let end = block_end.saturating_add(
+				(address_unit - block_end % address_unit) % address_unit);
+
+			match ranges.last_mut()
+			{
+				Some(last) if start <= last.1 =>
+					last.1 = std::cmp::max(last.1, end),
+				_ =>
+					ranges.push((start, end)),
+			}
+		}
+
+		for (range_start, range_end) in ranges
+		{
+			let mut read_index = range_start;
+			let mut accum_index = range_start;
 			let mut accum_bytes = Vec::<u8>::new();
 	
-			while read_index < block.offset + block.size
+			while read_index < range_end
 			{
 				let mut byte: u8 = 0;
 				for _ in 0..8
